@@ -52,17 +52,17 @@ def sset(xs):
 
 
 def family_cfg(name, V=(), W=(), X=(), O=(), Q=(), vref=(), wref=(), xref=(), oref=(), block=True, obuiltin=True,
-               kind="str", litform="native", sibling=False, histlen=0, oempty=(), vempty=(), replicated=True):
+               kind="str", litform="native", sibling=False, histlen=0, oempty=(), vempty=(), replicated=True, splits=("auto",)):
     return {"name": name, "text": "CONSTANTS\n  VAllowed = %s\n  WAllowed = %s\n  XAllowed = %s\n  OAllowed = %s\n  QAllowed = %s\n"
             "  VRefAt = %s\n  WRefAt = %s\n  XRefAt = %s\n  ORefAt = %s\n  DecoyBlock = %s\n  OBuiltin = %s\n  OptKind = \"%s\"\n"
-            "  LitForm = \"%s\"\n  Family = \"%s\"\n  Emit = TRUE\n  Sibling = %s\n  HistLen = %d\n  OEmptyAllowed = %s\n  VEmptyAllowed = %s\n  Replicated = %s\n"
+            "  LitForm = \"%s\"\n  Family = \"%s\"\n  Emit = TRUE\n  Sibling = %s\n  HistLen = %d\n  OEmptyAllowed = %s\n  VEmptyAllowed = %s\n  Replicated = %s\n  UserSplits = %s\n"
             "SPECIFICATION Spec\nINVARIANT TypeOK\nINVARIANT FoldIsTop\nINVARIANT NoDecoyInResult\nINVARIANT NoReferenceLeft\n"
             "INVARIANT AnswersAreLayering\nINVARIANT ViewsSeparate\n"
             "INVARIANT EmitCase\nPROPERTY DecoyIrrelevant\nPROPERTY HigherWins\nPROPERTY ReadsDoNotWrite\nCHECK_DEADLOCK FALSE\n" % (
                 sset(V), sset(W), sset(X), sset(O), sset(Q), sset(vref), sset(wref), sset(xref), sset(oref),
                 "TRUE" if block else "FALSE", "TRUE" if obuiltin else "FALSE", kind, litform, name,
                 "TRUE" if sibling else "FALSE", histlen, sset(oempty), sset(vempty),
-                "TRUE" if (replicated and not histlen and obuiltin) else "FALSE"),      # the no-built-in int option is `replicate` itself
+                "TRUE" if (replicated and not histlen and obuiltin) else "FALSE", sset(splits)),      # the no-built-in int option is `replicate` itself
             "histlen": histlen,
             "expect_empty": bool(oempty or vempty),
             "expect_decoys": block and bool(set(V) | set(W) | set(X) | set(O) | set(Q)) and bool((set(V) | set(O) | set(W) | set(X) | set(Q)) & set(VDECOY))}
@@ -98,6 +98,9 @@ def families(tier):
             fams.append(family_cfg("typed-%s-%s" % (k, lf), O=["dg", "comp", "ov1"], oref=["dg", "comp", "ov1"], V=vl, kind=k, litform=lf, block=False))
     fams.append(family_cfg("typed-int-nobuiltin", O=["ds", "comp", "ovd"], oref=["ds", "comp", "ovd"], V=vl, W=["dg"], vref=["ug"], kind="int",
                            litform="string", obuiltin=False, block=False))
+    # U: the user-supplied layer comes from two variable files that mention the same scopes and the same stage with different names
+    fams.append(family_cfg("user-files", V=["us", "ug", "p1s"] + (["ds"] if th else []), W=["us", "uso", "ug"] + (["comp"] if th else []), X=["us"],
+                           block=False, splits=("one", "scope-gs", "scope-sg", "name-ab", "name-ba")))
     # E: definitions that CLEAR: an explicitly empty value ('' / []) at a layer is a value (it overrides), not an absence
     el = ["dg", "ds", "p1g", "p1s", "comp", "ov1"] + (["ovd"] if th else [])
     fams.append(family_cfg("empty-str", O=el, oempty=el, block=False, kind="str"))
@@ -309,14 +312,36 @@ def real_modules():
     return _ENV["FL"], _ENV["conf"], _ENV["E"]
 
 
+AUTO_SPLITS = ["one", "scope-gs", "scope-sg"]
+
+
 def write_user_files(user, scratch, variant):
-    """variant 0: one file; 1: global scope and stage scope in two files (disjoint contents: the order is irrelevant)"""
+    """How the user-supplied definitions are distributed over variable files (the files define disjoint (scope, name) pairs, so
+    neither the distribution nor the order matters): one file; by scope (global / stages, both orders); by name (the
+    definitions of variable v in one file, those of w and x in another -- both may mention the same stage --, both orders)."""
     if not user:
         return []
     os.makedirs(scratch, exist_ok=True)
+    variant = {0: "one", 1: "scope-gs", 2: "scope-sg"}.get(variant, variant)
     parts = [user]
-    if variant and len(user) == 2:
-        parts = [{"stages": user["stages"]}, {"global": user["global"]}] if variant == 2 else [{"global": user["global"]}, {"stages": user["stages"]}]
+    if variant in ("scope-gs", "scope-sg") and len(user) == 2:
+        parts = [{"global": user["global"]}, {"stages": user["stages"]}]
+    elif variant in ("name-ab", "name-ba"):
+        def pick(keep):
+            part = {}
+            for nm, val in user.get("global", {}).items():
+                if keep(nm):
+                    part.setdefault("global", {})[nm] = val
+            for st, d in user.get("stages", {}).items():
+                for nm, val in d.items():
+                    if keep(nm):
+                        part.setdefault("stages", {}).setdefault(st, {})[nm] = val
+            return part
+        parts = [x for x in (pick(lambda nm: nm == VNAME["v"]), pick(lambda nm: nm != VNAME["v"])) if x] or [user]
+    elif variant not in ("one", "scope-gs", "scope-sg"):
+        raise MachineryError("unknown distribution of user variable files %r" % (variant,))
+    if variant in ("scope-sg", "name-ba"):
+        parts = parts[::-1]
     files = []
     for i, part in enumerate(parts):
         text = yaml.safe_dump(part, sort_keys=True)
@@ -450,12 +475,17 @@ def run_case(case, scratch, idx=0, only=None):
     paths = opt_paths(case)
     builtin = FL.FlowIR.default_component_structure()
     out = []
+    combos = []
     for ai, active in enumerate(("default", "p1")):
-        variant = (idx + ai) % 3
         if only and only.get("active") not in (None, active):
             continue
-        if only and "variant" in only:
-            variant = only["variant"]
+        if only and only.get("variant") is not None:
+            vs = [only["variant"]]
+        else:
+            # "auto": one distribution per (case, active platform), rotating; otherwise every distribution the spec lists
+            vs = [AUTO_SPLITS[(idx + ai) % 3] if v == "auto" else v for v in sorted(case.get("splits") or ["auto"])]
+        combos += [(active, v) for v in vs]
+    for active, variant in combos:
         files = write_user_files(user, scratch, variant)
         rp = {"case": case, "active": active, "variant": variant}
         exp_active = case["exp"][active]
@@ -754,7 +784,7 @@ def run(tier):
             chk.evaluated((case["family"], brief(case), json.dumps([(o["op"], o["plat"], o["comp"], o["inject"]) for o in case["hist"]])), n=len(case["hist"]))
             chk.trace_validated()
         else:
-            chk.evaluated((case["family"], brief(case), case["kind"], case["litform"]), n=4)
+            chk.evaluated((case["family"], brief(case), case["kind"], case["litform"]), n=4 * len(case.get("splits") or [1]))
         for key, what, rp in res:
             chk.violation(key, what, rp)
     for cc, key, what, rp in run_catalogue(cat_cases):
@@ -799,7 +829,7 @@ def replay(path):
             chk.violation(key, what, r)
     else:
         os.makedirs(os.path.join(chk.scratch, "uservars"), exist_ok=True)
-        res = run_case(rp["case"], os.path.join(chk.scratch, "uservars"), 0, only={"active": rp.get("active"), "query": rp.get("query"), "variant": rp.get("variant", 0)})
+        res = run_case(rp["case"], os.path.join(chk.scratch, "uservars"), 0, only={"active": rp.get("active"), "query": rp.get("query"), "variant": rp.get("variant")})
         chk.evaluated(("replay", brief(rp["case"])))
         for key, what, r in res:
             chk.violation(key, what, r)
